@@ -24,6 +24,10 @@ CUSTOM_SPECS = [
 ]
 
 
+# a model whose concept role is not ':instance' (so ':instance' itself is an undefined role): C16 only
+OWN_CONCEPT_ROLE = {'kind': 'custom', 'spec': dict(CUSTOM_SPECS[0], concept_role=':isa')}
+
+
 def custom(i):
     return {'kind': 'custom', 'spec': CUSTOM_SPECS[i % len(CUSTOM_SPECS)]}
 
@@ -63,8 +67,8 @@ def inventory(spec):
     kind = spec['kind']
     if kind in ('default', 'noop'):
         edge = [':ARG0', ':ARG1', ':ARG2', ':mod', ':op1', ':op2', ':op10', ':domain',
-                ':location', ':time', ':poss', ':part', ':rel', ':x']
-        attr = [':polarity', ':quant', ':value', ':name', ':op1', ':op2', ':mode', ':wiki', ':li']
+                ':location', ':time', ':poss', ':part', ':rel', ':x', ':x2-op9', ':x2-op10', ':x2-op100']
+        attr = [':polarity', ':quant', ':value', ':name', ':op1', ':op2', ':mode', ':wiki', ':li', ':y1z12', ':y1z3']
         return edge, attr
     if kind == 'amr':
         edge = [':ARG0', ':ARG1', ':ARG2', ':ARG3', ':mod', ':domain', ':op1', ':op2', ':op10',
